@@ -65,7 +65,13 @@ impl FileSystem {
     pub(crate) fn get_object_path(&self, bucket: &str, key: &str) -> Result<PathBuf> {
         let dir = Path::new(&bucket);
         let file_path = Path::new(&key);
-        self.resolve_abs_path(dir.join(file_path))
+        let path = self.resolve_abs_path(dir.join(file_path))?;
+        // a key must not climb out of its bucket (`..`, absolute paths)
+        let bucket_path = self.get_bucket_path(bucket)?;
+        if path == bucket_path || !path.starts_with(&bucket_path) {
+            return Err(Error::from_string("object key resolves outside of its bucket"));
+        }
+        Ok(path)
     }
 
     /// resolve bucket path under the virtual root
